@@ -1329,16 +1329,561 @@ theorem stateTzG_eq {env : Env} {z : Zone} {t : Int} (hlo : instMin ≤ naive z 
   unfold stateTzG
   rw [naiveChecked_ok hlo hhi]
 
-/-- what `next_change` computes before its final test, in terms of the naive first interval -/
+/-! ### `iter_range`: filter → merge → map (/repo dfe1ade)
+
+List level: `filterRanges`, `mergeRanges` (`mergeFrom`), `mapIntervals`.  Lazy level (first item only,
+for `next_change`): `naiveNext`, `nextKept`, `absorb`, tied to the list level by
+`firstMergedG_eq_head`. -/
+
+theorem keepRange_true {z : Zone} {iv : Interval} (h : keepRange z iv = .ok true) :
+    ∃ u, datetime z iv.start = .ok u ∧ naive z u < iv.stop := by
+  unfold keepRange at h
+  split at h
+  · cases h
+  · rename_i u hu
+    split at h
+    · cases h
+    · rename_i n hn
+      simp only [Except.ok.injEq, decide_eq_true_eq] at h
+      exact ⟨u, hu, by rw [← naiveChecked_eq hn]; exact h⟩
+
+theorem keepRange_ok {z : Zone} {iv : Interval} {u : Int} (hu : datetime z iv.start = .ok u)
+    (h1 : instMin ≤ naive z u) (h2 : naive z u ≤ instMax) :
+    keepRange z iv = .ok (decide (naive z u < iv.stop)) := by
+  unfold keepRange
+  rw [hu]
+  simp only
+  rw [naiveChecked_ok h1 h2]
+
+/-- the filtered list is a sublist whose members passed the filter -/
+theorem filterRanges_spec {z : Zone} : ∀ {l fl : List Interval}, filterRanges z l = .ok fl →
+    fl.Sublist l ∧ ∀ iv ∈ fl, keepRange z iv = .ok true := by
+  intro l
+  induction l with
+  | nil => intro fl h; cases h; exact ⟨List.Sublist.refl _, fun _ h => nomatch h⟩
+  | cons a rest ih =>
+    intro fl h
+    simp only [filterRanges] at h
+    split at h
+    · cases h
+    · rename_i k hk
+      split at h
+      · cases h
+      · rename_i xs hxs
+        cases h
+        obtain ⟨i1, i2⟩ := ih hxs
+        cases k with
+        | true =>
+          simp only [if_true]
+          refine ⟨i1.cons_cons a, ?_⟩
+          intro iv hiv
+          rcases List.mem_cons.mp hiv with e | e
+          · subst e; exact hk
+          · exact i2 iv e
+        | false =>
+          simp only [Bool.false_eq_true, if_false]
+          exact ⟨i1.cons a, i2⟩
+
+theorem mergeable_iff {c n : Interval} : mergeable c n = true ↔ n.kind = c.kind ∧ c.stop ≤ n.start := by
+  simp [mergeable]
+
+/-- the head of the merged list is the range in hand, grown to the right -/
+theorem mergeFrom_head (curr : Interval) (fl : List Interval) :
+    ∃ c tail, mergeFrom curr fl = c :: tail ∧ c.start = curr.start ∧ c.kind = curr.kind ∧
+      c.comments = curr.comments := by
+  induction fl generalizing curr with
+  | nil => exact ⟨curr, [], rfl, rfl, rfl, rfl⟩
+  | cons next rest ih =>
+    simp only [mergeFrom]
+    split
+    · obtain ⟨c, tail, h1, h2, h3, h4⟩ := ih ⟨curr.start, next.stop, curr.kind, curr.comments⟩
+      exact ⟨c, tail, h1, h2, h3, h4⟩
+    · exact ⟨curr, _, rfl, rfl, rfl, rfl⟩
+
+/-- `c` is a group of `L`: it starts with `a`, ends with `b`, both of its kind; comments of `a`;
+when the ranges of `L` are not inverted it ends at/after the end of `a` -/
+def FromGroup (L : List Interval) (c : Interval) : Prop :=
+  ∃ a ∈ L, ∃ b ∈ L, c.start = a.start ∧ c.stop = b.stop ∧ c.kind = a.kind ∧ b.kind = a.kind ∧
+    c.comments = a.comments ∧ ((∀ x ∈ L, x.start ≤ x.stop) → a.stop ≤ c.stop)
+
+theorem mergeFrom_mem (L : List Interval) : ∀ (fl : List Interval) (curr : Interval),
+    FromGroup L curr → (∀ x ∈ fl, x ∈ L) → (∀ x ∈ fl, curr.stop ≤ x.start ∨ ¬ (∀ x ∈ L, x.start ≤ x.stop) ∨ True) →
+    ∀ c ∈ mergeFrom curr fl, FromGroup L c := by
+  intro fl
+  induction fl with
+  | nil =>
+    intro curr hq _ _ c hc
+    simp only [mergeFrom, List.mem_singleton] at hc
+    subst hc; exact hq
+  | cons next rest ih =>
+    intro curr hq hsub _ c hc
+    simp only [mergeFrom] at hc
+    have hnext : next ∈ L := hsub next List.mem_cons_self
+    have hrest : ∀ x ∈ rest, x ∈ L := fun x hx => hsub x (List.mem_cons_of_mem _ hx)
+    split at hc
+    · rename_i hm
+      obtain ⟨hk, hle⟩ := mergeable_iff.mp hm
+      apply ih ⟨curr.start, next.stop, curr.kind, curr.comments⟩ ?_ hrest (fun _ _ => Or.inr (Or.inr trivial)) c hc
+      obtain ⟨a, ha, b, hb, q1, q2, q3, q4, q5, q6⟩ := hq
+      refine ⟨a, ha, next, hnext, q1, rfl, q3, by rw [hk, q3], q5, ?_⟩
+      intro hne
+      have := q6 hne
+      have := hne next hnext
+      simp only
+      omega
+    · rcases List.mem_cons.mp hc with e | e
+      · subst e; exact hq
+      · apply ih next ?_ hrest (fun _ _ => Or.inr (Or.inr trivial)) c e
+        exact ⟨next, hnext, next, hnext, rfl, rfl, rfl, rfl, rfl, fun _ => Int.le_refl _⟩
+
+/-- every merged range is a group of the filtered list -/
+theorem mergeRanges_mem {fl : List Interval} : ∀ c ∈ mergeRanges fl, FromGroup fl c := by
+  cases fl with
+  | nil => intro c hc; cases hc
+  | cons curr rest =>
+    intro c hc
+    simp only [mergeRanges] at hc
+    apply mergeFrom_mem (curr :: rest) rest curr ?_ (fun x hx => List.mem_cons_of_mem _ hx)
+      (fun _ _ => Or.inr (Or.inr trivial)) c hc
+    exact ⟨curr, List.mem_cons_self, curr, List.mem_cons_self, rfl, rfl, rfl, rfl, rfl, fun _ => Int.le_refl _⟩
+
+theorem mergeFrom_start_ge {m : Int} : ∀ (fl : List Interval) (curr : Interval), m ≤ curr.start →
+    (∀ x ∈ fl, m ≤ x.start) → ∀ y ∈ mergeFrom curr fl, m ≤ y.start := by
+  intro fl
+  induction fl with
+  | nil =>
+    intro curr h1 _ y hy
+    simp only [mergeFrom, List.mem_singleton] at hy
+    subst hy; exact h1
+  | cons next rest ih =>
+    intro curr h1 h2 y hy
+    simp only [mergeFrom] at hy
+    have hr : ∀ x ∈ rest, m ≤ x.start := fun x hx => h2 x (List.mem_cons_of_mem _ hx)
+    split at hy
+    · exact ih ⟨curr.start, next.stop, curr.kind, curr.comments⟩ h1 hr y hy
+    · rcases List.mem_cons.mp hy with e | e
+      · subst e; exact h1
+      · exact ih next (h2 next List.mem_cons_self) hr y e
+
+def Ordered (l : List Interval) : Prop :=
+  (∀ iv ∈ l, iv.start ≤ iv.stop) ∧ l.Pairwise (fun a b => a.stop ≤ b.start)
+
+theorem Ordered.tail {a : Interval} {l : List Interval} (h : Ordered (a :: l)) : Ordered l :=
+  ⟨fun iv hiv => h.1 iv (List.mem_cons_of_mem _ hiv), (List.pairwise_cons.mp h.2).2⟩
+
+theorem Ordered.sublist {l l' : List Interval} (hs : l'.Sublist l) (h : Ordered l) : Ordered l' :=
+  ⟨fun iv hiv => h.1 iv (hs.subset hiv), h.2.sublist hs⟩
+
+/-- merging keeps an ordered list ordered -/
+theorem mergeFrom_ordered : ∀ (fl : List Interval) (curr : Interval), curr.start ≤ curr.stop →
+    (∀ x ∈ fl, curr.stop ≤ x.start) → Ordered fl → Ordered (mergeFrom curr fl) := by
+  intro fl
+  induction fl with
+  | nil =>
+    intro curr h1 _ _
+    simp only [mergeFrom]
+    refine ⟨?_, List.pairwise_singleton _ _⟩
+    intro iv hiv
+    simp only [List.mem_singleton] at hiv
+    subst hiv; exact h1
+  | cons next rest ih =>
+    intro curr h1 h2 h3
+    simp only [mergeFrom]
+    have hn1 := h3.1 next List.mem_cons_self
+    have hn2 : ∀ x ∈ rest, next.stop ≤ x.start := (List.pairwise_cons.mp h3.2).1
+    have hc := h2 next List.mem_cons_self
+    split
+    · apply ih ⟨curr.start, next.stop, curr.kind, curr.comments⟩ (by simp only; omega) hn2 h3.tail
+    · have ihn := ih next hn1 hn2 h3.tail
+      refine ⟨?_, ?_⟩
+      · intro iv hiv
+        rcases List.mem_cons.mp hiv with e | e
+        · subst e; exact h1
+        · exact ihn.1 iv e
+      · rw [List.pairwise_cons]
+        refine ⟨?_, ihn.2⟩
+        intro y hy
+        exact mergeFrom_start_ge rest next hc (fun x hx => h2 x (List.mem_cons_of_mem _ hx)) y hy
+
+theorem mergeRanges_ordered {fl : List Interval} (h : Ordered fl) : Ordered (mergeRanges fl) := by
+  cases fl with
+  | nil => exact h
+  | cons curr rest =>
+    simp only [mergeRanges]
+    exact mergeFrom_ordered rest curr (h.1 curr List.mem_cons_self) (List.pairwise_cons.mp h.2).1 h.tail
+
+/-- adjacent elements have different kinds -/
+def AdjDiffer : List Interval → Prop
+  | [] => True
+  | [_] => True
+  | a :: b :: rest => a.kind ≠ b.kind ∧ AdjDiffer (b :: rest)
+
+/-- **full coalescing restores alternation**: whatever the kinds of an ordered (filtered) list, the
+merged list alternates -/
+theorem mergeFrom_adjDiffer : ∀ (fl : List Interval) (curr : Interval),
+    (∀ x ∈ fl, curr.stop ≤ x.start) → fl.Pairwise (fun a b => a.stop ≤ b.start) →
+    AdjDiffer (mergeFrom curr fl) := by
+  intro fl
+  induction fl with
+  | nil => intro curr _ _; simp only [mergeFrom, AdjDiffer]
+  | cons next rest ih =>
+    intro curr h1 h2
+    simp only [mergeFrom]
+    have hn2 : ∀ x ∈ rest, next.stop ≤ x.start := (List.pairwise_cons.mp h2).1
+    have hp := (List.pairwise_cons.mp h2).2
+    split
+    · exact ih ⟨curr.start, next.stop, curr.kind, curr.comments⟩ hn2 hp
+    · rename_i hm
+      have ihn := ih next hn2 hp
+      obtain ⟨c, tail, e, _, ek, _⟩ := mergeFrom_head next rest
+      rw [e] at ihn ⊢
+      refine ⟨?_, ihn⟩
+      intro hk
+      apply hm
+      exact mergeable_iff.mpr ⟨by rw [← ek, ← hk], h1 next List.mem_cons_self⟩
+
+theorem mergeRanges_adjDiffer {fl : List Interval} (h : fl.Pairwise (fun a b => a.stop ≤ b.start)) :
+    AdjDiffer (mergeRanges fl) := by
+  cases fl with
+  | nil => trivial
+  | cons curr rest =>
+    simp only [mergeRanges]
+    exact mergeFrom_adjDiffer rest curr (List.pairwise_cons.mp h).1 (List.pairwise_cons.mp h).2
+
+theorem AdjDiffer.get {l : List Interval} (h : AdjDiffer l) :
+    ∀ i (hi : i + 1 < l.length), l[i].kind ≠ l[i + 1].kind := by
+  induction l with
+  | nil => intro i hi; simp at hi
+  | cons a rest ih =>
+    cases rest with
+    | nil => intro i hi; simp at hi
+    | cons b rest' =>
+      intro i hi
+      cases i with
+      | zero => exact h.1
+      | succ j =>
+        simp only [List.getElem_cons_succ]
+        exact ih h.2 j (by simp only [List.length_cons] at hi ⊢; omega)
+
+/-- nothing to merge: no two neighbours are `mergeable` (the NoLocation stream, whose neighbours have
+different kinds, and the bounded streams of C16, where an interval "ending at DATE_END" overlaps its
+successor) -/
+theorem mergeFrom_eq_self : ∀ (fl : List Interval) (curr : Interval),
+    (∀ nx ∈ fl.head?, mergeable curr nx = false) → (curr :: fl).Pairwise (fun _ _ => True) →
+    (∀ i (hi : i + 1 < fl.length), mergeable fl[i] fl[i + 1] = false) → mergeFrom curr fl = curr :: fl := by
+  intro fl
+  induction fl with
+  | nil => intro curr _ _ _; rfl
+  | cons next rest ih =>
+    intro curr h1 _ h3
+    simp only [mergeFrom]
+    rw [if_neg (by rw [h1 next (by simp)]; simp)]
+    congr 1
+    apply ih next
+    · intro nx hnx
+      cases rest with
+      | nil => simp at hnx
+      | cons r rest' =>
+        simp only [List.head?_cons, Option.mem_def, Option.some.injEq] at hnx
+        subst hnx
+        exact h3 0 (by simp)
+    · exact List.pairwise_of_forall (fun _ _ => trivial)
+    · intro i hi
+      have := h3 (i + 1) (by simp only [List.length_cons] at hi ⊢; omega)
+      simpa using this
+
+theorem mergeRanges_eq_self {l : List Interval}
+    (h : ∀ i (hi : i + 1 < l.length), mergeable l[i] l[i + 1] = false) : mergeRanges l = l := by
+  cases l with
+  | nil => rfl
+  | cons curr rest =>
+    simp only [mergeRanges]
+    apply mergeFrom_eq_self rest curr
+    · intro nx hnx
+      cases rest with
+      | nil => simp at hnx
+      | cons r rest' =>
+        simp only [List.head?_cons, Option.mem_def, Option.some.injEq] at hnx
+        subst hnx
+        exact h 0 (by simp)
+    · exact List.pairwise_of_forall (fun _ _ => trivial)
+    · intro i hi
+      have := h (i + 1) (by simp only [List.length_cons] at hi ⊢; omega)
+      simpa using this
+
+theorem mapIntervals_adjDiffer {z : Zone} : ∀ {l out : List Interval}, mapIntervals z l = .ok out →
+    AdjDiffer l → AdjDiffer out ∧ out.length = l.length ∧ ∀ x ∈ l.head?, ∀ y ∈ out.head?, y.kind = x.kind := by
+  intro l
+  induction l with
+  | nil => intro out h _; cases h; exact ⟨trivial, rfl, fun _ hx => nomatch hx⟩
+  | cons a rest ih =>
+    intro out h hd
+    simp only [mapIntervals] at h
+    split at h
+    · cases h
+    · rename_i x hx
+      split at h
+      · cases h
+      · rename_i xs hxs
+        cases h
+        obtain ⟨_, _, xk, _⟩ := mapInterval_spec hx
+        cases rest with
+        | nil =>
+          cases hxs
+          refine ⟨trivial, rfl, ?_⟩
+          intro x' hx' y hy
+          simp only [List.head?_cons, Option.mem_def, Option.some.injEq] at hx' hy
+          subst hx'; subst hy; exact xk
+        | cons b rest' =>
+          obtain ⟨i1, i2, i3⟩ := ih hxs hd.2
+          cases xs with
+          | nil => simp at i2
+          | cons y ys =>
+            have hyk : y.kind = b.kind := i3 b (by simp) y (by simp)
+            refine ⟨⟨by rw [xk, hyk]; exact hd.1, i1⟩, by simp only [List.length_cons] at i2 ⊢; omega, ?_⟩
+            intro x' hx' y' hy'
+            simp only [List.head?_cons, Option.mem_def, Option.some.injEq] at hx' hy'
+            subst hx'; subst hy'; exact xk
+
+/-! #### the lazy pipeline is the head of the collected one -/
+
+/-- `collect` unfolds along `naiveNext` -/
+theorem collect_step (env : Env) (frm to : Int) (st : ItState) (acc : List Interval) :
+    collect env frm to st acc =
+      match naiveNext env frm to st with
+      | .error p => .error p
+      | .ok none => .ok acc.reverse
+      | .ok (some (x, st')) => collect env frm to st' (x :: acc) := by
+  rw [collect]
+  unfold naiveNext
+  cases itNext env to st with
+  | error p => rfl
+  | ok r =>
+    cases r with
+    | none => rfl
+    | some pr =>
+      obtain ⟨iv, st'⟩ := pr
+      simp only
+      by_cases hge : iv.start ≥ to
+      · simp only [if_pos hge]
+      · simp only [if_neg hge]
+        by_cases hm : itMeasure (instDay to) st' < itMeasure (instDay to) st
+        · simp only [dif_pos hm, if_pos hm]
+        · simp only [dif_neg hm, if_neg hm]
+
+/-- the accumulator of `collect` is only a prefix -/
+theorem collect_acc (env : Env) (frm to : Int) (st : ItState) (acc0 : List Interval) : ∀ acc,
+    collect env frm to st acc =
+      match collect env frm to st [] with
+      | .error p => .error p
+      | .ok l => .ok (acc.reverse ++ l) := by
+  induction st, acc0 using collect.induct (env := env) (frm := frm) (to := to) with
+  | case1 st acc0 p hn =>
+    intro acc
+    have hnn : naiveNext env frm to st = .error p := by unfold naiveNext; rw [hn]
+    rw [collect_step env frm to st acc, collect_step env frm to st [], hnn]
+  | case2 st acc0 hn =>
+    intro acc
+    have hnn : naiveNext env frm to st = .ok none := by unfold naiveNext; rw [hn]
+    rw [collect_step env frm to st acc, collect_step env frm to st [], hnn]
+    simp
+  | case3 st acc0 iv st' hn hge =>
+    intro acc
+    have hnn : naiveNext env frm to st = .ok none := by unfold naiveNext; rw [hn]; simp only [if_pos hge]
+    rw [collect_step env frm to st acc, collect_step env frm to st [], hnn]
+    simp
+  | case4 st acc0 iv st' hn hge hm ih =>
+    intro acc
+    have hnn : naiveNext env frm to st =
+        .ok (some (⟨max iv.start frm, min iv.stop to, iv.kind, iv.comments⟩, st')) := by
+      unfold naiveNext; rw [hn]; simp only [if_neg hge, if_pos hm]
+    rw [collect_step env frm to st acc, collect_step env frm to st [], hnn]
+    simp only
+    rw [ih (_ :: acc), ih [_]]
+    cases collect env frm to st' [] with
+    | error p => rfl
+    | ok l => simp
+  | case5 st acc0 iv st' hn hge hm =>
+    intro acc
+    have hnn : naiveNext env frm to st = .error "model: iterator made no progress (unbounded iteration)" := by
+      unfold naiveNext; rw [hn]; simp only [if_neg hge, if_neg hm]
+    rw [collect_step env frm to st acc, collect_step env frm to st [], hnn]
+
+/-- a successful `collect` from `st` is the item `naiveNext` yields followed by the `collect` from the
+next state -/
+theorem collect_cons {env : Env} {frm to : Int} {st : ItState} {l : List Interval}
+    (h : collect env frm to st [] = .ok l) :
+    (naiveNext env frm to st = .ok none ∧ l = []) ∨
+    (∃ x st' l', naiveNext env frm to st = .ok (some (x, st')) ∧ collect env frm to st' [] = .ok l' ∧
+      l = x :: l') := by
+  rw [collect_step] at h
+  split at h
+  · cases h
+  · cases h; exact Or.inl ⟨by assumption, rfl⟩
+  · rename_i x st' hn
+    right
+    rw [collect_acc env frm to st' [] [x]] at h
+    cases hc : collect env frm to st' [] with
+    | error p => rw [hc] at h; cases h
+    | ok l' =>
+      rw [hc] at h
+      simp only [List.reverse_cons, List.reverse_nil, List.nil_append, List.singleton_append,
+        Except.ok.injEq] at h
+      exact ⟨x, st', l', hn, hc, h.symm⟩
+
+/-- `nextKept` finds the first range of the collected stream that passes the filter -/
+theorem nextKept_spec {env : Env} {z : Zone} {frm to : Int} (st : ItState) :
+    ∀ {l fl : List Interval}, collect env frm to st [] = .ok l → filterRanges z l = .ok fl →
+    match fl with
+    | [] => nextKept env z frm to st = .ok none
+    | a :: fl' => ∃ st' l', nextKept env z frm to st = .ok (some (a, st')) ∧
+        collect env frm to st' [] = .ok l' ∧ filterRanges z l' = .ok fl' := by
+  fun_induction nextKept env z frm to st with
+  | case1 st p hn =>
+    intro l fl hl _
+    rcases collect_cons hl with ⟨h, _⟩ | ⟨_, _, _, h, _⟩ <;> (rw [hn] at h; cases h)
+  | case2 st hn =>
+    intro l fl hl hfl
+    rcases collect_cons hl with ⟨_, e⟩ | ⟨_, _, _, h, _⟩
+    · subst e; cases hfl; rfl
+    · rw [hn] at h; cases h
+  | case3 st iv st' hn p hk =>
+    intro l fl hl hfl
+    rcases collect_cons hl with ⟨h, _⟩ | ⟨x, st2, l', h, _, e⟩
+    · rw [hn] at h; cases h
+    · rw [hn] at h; cases h
+      subst e
+      simp only [filterRanges, hk] at hfl
+      cases hfl
+  | case4 st iv st' hn hk =>
+    intro l fl hl hfl
+    rcases collect_cons hl with ⟨h, _⟩ | ⟨x, st2, l', h, hl', e⟩
+    · rw [hn] at h; cases h
+    · rw [hn] at h; cases h
+      subst e
+      simp only [filterRanges, hk] at hfl
+      split at hfl
+      · cases hfl
+      · rename_i xs hxs
+        cases hfl
+        exact ⟨st', l', rfl, hl', hxs⟩
+  | case5 st iv st' hn hk ih =>
+    intro l fl hl hfl
+    rcases collect_cons hl with ⟨h, _⟩ | ⟨x, st2, l', h, hl', e⟩
+    · rw [hn] at h; cases h
+    · rw [hn] at h; cases h
+      subst e
+      simp only [filterRanges, hk] at hfl
+      split at hfl
+      · cases hfl
+      · rename_i xs hxs
+        cases hfl
+        exact ih hl' hxs
+
+/-- `absorb` returns the head of the merged list -/
+theorem absorb_spec {env : Env} {z : Zone} {frm to : Int} (curr : Interval) (st : ItState) :
+    ∀ {l fl : List Interval}, collect env frm to st [] = .ok l → filterRanges z l = .ok fl →
+    absorb env z frm to curr st = .ok ((mergeFrom curr fl).head?.getD curr) := by
+  fun_induction absorb env z frm to curr st with
+  | case1 curr st p hn =>
+    intro l fl hl hfl
+    have := nextKept_spec st hl hfl
+    cases fl with
+    | nil => simp only at this; rw [hn] at this; cases this
+    | cons a fl' => obtain ⟨_, _, h, _⟩ := this; rw [hn] at h; cases h
+  | case2 curr st hn =>
+    intro l fl hl hfl
+    have := nextKept_spec st hl hfl
+    cases fl with
+    | nil => rfl
+    | cons a fl' => obtain ⟨_, _, h, _⟩ := this; rw [hn] at h; cases h
+  | case3 curr st next st' hn hm ih =>
+    intro l fl hl hfl
+    have := nextKept_spec st hl hfl
+    cases fl with
+    | nil => simp only at this; rw [hn] at this; cases this
+    | cons a fl' =>
+      obtain ⟨st2, l', h, hl', hfl'⟩ := this
+      rw [hn] at h; cases h
+      rw [ih hl' hfl']
+      simp only [mergeFrom, if_pos hm]
+      obtain ⟨c, tail, e, _⟩ := mergeFrom_head ⟨curr.start, next.stop, curr.kind, curr.comments⟩ fl'
+      rw [e]
+      rfl
+  | case4 curr st next st' hn hm =>
+    intro l fl hl hfl
+    have := nextKept_spec st hl hfl
+    cases fl with
+    | nil => simp only at this; rw [hn] at this; cases this
+    | cons a fl' =>
+      obtain ⟨st2, l', h, hl', hfl'⟩ := this
+      rw [hn] at h; cases h
+      simp only [mergeFrom, if_neg hm]
+      rfl
+
+/-- **the first item pulled lazily is the head of the collected, filtered and merged stream** -/
+theorem firstMergedG_eq_head {env : Env} {z : Zone} {nf nt : Int} {l fl : List Interval}
+    (hl : iterRangeG env nf nt = .ok l) (hfl : filterRanges z l = .ok fl) :
+    firstMergedG env z nf nt = .ok (mergeRanges fl).head? := by
+  unfold iterRangeG at hl
+  simp only at hl
+  unfold firstMergedG
+  split at hl
+  · cases hl
+  · rename_i st hst
+    rw [hst]
+    simp only
+    have h1 := nextKept_spec (z := z) st hl hfl
+    cases fl with
+    | nil =>
+      simp only at h1
+      rw [h1]
+      rfl
+    | cons a fl' =>
+      obtain ⟨st', l', h2, hl', hfl'⟩ := h1
+      rw [h2]
+      simp only
+      rw [absorb_spec a st' hl' hfl']
+      simp only [mergeRanges]
+      obtain ⟨c, tail, e, _⟩ := mergeFrom_head a fl'
+      rw [e]
+      rfl
+
+/-- an error of the first naive step is the same error of the lazy pipeline -/
+theorem firstMergedG_error {env : Env} {z : Zone} {nf nt : Int} {p : String}
+    (h : firstIntervalG env nf nt = .error p) : firstMergedG env z nf nt = .error p := by
+  unfold firstIntervalG at h
+  simp only at h
+  unfold firstMergedG
+  split at h
+  · rename_i q hq
+    rw [hq]; simp only; exact h
+  · rename_i st hst
+    rw [hst]
+    simp only
+    split at h
+    · rename_i q hq
+      rw [nextKept]
+      have : naiveNext env (min instEnd nf) (min instEnd nt) st = .error q := by
+        unfold naiveNext; rw [hq]
+      split
+      · rename_i q' hq'; rw [this] at hq'; cases hq'; exact h
+      · rename_i hq'; rw [this] at hq'; cases hq'
+      · rename_i _ _ hq'; rw [this] at hq'; cases hq'
+    · cases h
+    · split at h <;> cases h
+
+/-- what `next_change` computes before its final test, in terms of the first item of the filtered
+and merged naive stream -/
 theorem nextChangeTzG_unfold {env : Env} {z : Zone} {t : Int} (hs : sorted z = true)
     (hend : lastLocal z + nsPerMin ≤ instEnd) (hlo : instMin ≤ naive z t) (hhi : naive z t ≤ instMax) :
     ∃ E, datetime z instEnd = .ok E ∧ naive z E = instEnd ∧
       nextChangeTzG env z t =
-        match firstIntervalG env (naive z t) instEnd with
+        match firstMergedG env z (naive z t) instEnd with
         | .error p => .error p
         | .ok none => .ok none
-        | .ok (some iv) =>
-          match mapInterval z iv with
+        | .ok (some c) =>
+          match mapInterval z c with
           | .error p => .error p
           | .ok x =>
             match naiveChecked z x.stop with
@@ -1355,8 +1900,13 @@ theorem nextChangeTzG_unfold {env : Env} {z : Zone} {t : Int} (hs : sorted z = t
   have h1 := instEnd_le_instMax
   have h2 := instMin_le_instEnd
   rw [naiveChecked_ok hlo hhi, naiveChecked_ok (by omega) (by omega), hnE]
-  simp only [firstIntervalG_clamp]
-  cases firstIntervalG env (naive z t) instEnd with
+  have e : firstMergedG env z (min instEnd (naive z t)) (min instEnd instEnd) =
+      firstMergedG env z (naive z t) instEnd := by
+    unfold firstMergedG
+    simp only [clamp_idem]
+  simp only
+  rw [e]
+  cases firstMergedG env z (naive z t) instEnd with
   | error p => rfl
   | ok r =>
     cases r with
@@ -1367,6 +1917,7 @@ theorem nextChangeTzG_unfold {env : Env} {z : Zone} {t : Int} (hs : sorted z = t
       | error p => rfl
       | ok x => rfl
 
+/-- a panic of the naive evaluation's first step is the same panic -/
 theorem nextChangeTzG_error {env : Env} {z : Zone} {t : Int} {p : String} (hs : sorted z = true)
     (hend : lastLocal z + nsPerMin ≤ instEnd) (hlo : instMin ≤ naive z t) (hhi : naive z t ≤ instMax)
     (h : nextChangeG env (naive z t) = .error p) : nextChangeTzG env z t = .error p := by
@@ -1374,76 +1925,95 @@ theorem nextChangeTzG_error {env : Env} {z : Zone} {t : Int} {p : String} (hs : 
   rw [hu]
   unfold nextChangeG at h
   cases hf : firstIntervalG env (naive z t) instEnd with
-  | error q => rw [hf] at h; simp only at h ⊢; exact h
+  | error q =>
+    rw [hf] at h
+    simp only at h
+    cases h
+    rw [firstMergedG_error hf]
   | ok r =>
     rw [hf] at h
     cases r with
     | none => cases h
     | some iv => simp only at h; split at h <;> cases h
 
-theorem nextChangeTzG_none {env : Env} {z : Zone} {t : Int} (hs : sorted z = true)
+/-- every range of the collected naive stream starts inside the clamped window -/
+theorem collect_window {env : Env} {frm to : Int} {st : ItState} {acc l : List Interval}
+    (hacc : ∀ x ∈ acc, frm ≤ x.start ∧ x.start < max (frm + 1) to ∧ x.stop ≤ to)
+    (h : collect env frm to st acc = .ok l) :
+    ∀ x ∈ l, frm ≤ x.start ∧ x.start < max (frm + 1) to ∧ x.stop ≤ to := by
+  fun_induction collect env frm to st acc generalizing l with
+  | case1 st acc p hn => cases h
+  | case2 st acc hn =>
+    cases h
+    intro x hx
+    exact hacc x (List.mem_reverse.mp hx)
+  | case3 st acc iv st' hn hge =>
+    cases h
+    intro x hx
+    exact hacc x (List.mem_reverse.mp hx)
+  | case4 st acc iv st' hn hge hm ih =>
+    apply ih _ h
+    intro x hx
+    rcases List.mem_cons.mp hx with hx | hx
+    · subst hx
+      simp only
+      omega
+    · exact hacc x hx
+  | case5 st acc iv st' hn hge hm => cases h
+
+theorem iterRangeG_window {env : Env} {frm to : Int} {l : List Interval}
+    (h : iterRangeG env frm to = .ok l) :
+    ∀ x ∈ l, min instEnd frm ≤ x.start ∧ x.start ≤ instEnd ∧ x.stop ≤ instEnd := by
+  unfold iterRangeG at h
+  simp only at h
+  split at h
+  · cases h
+  · intro x hx
+    have := collect_window (by intro x hx; cases hx) h x hx
+    omega
+
+/-- **`next_change` in a zone, exact form**: the end of the first range of the filtered and merged
+naive stream from the wall-clock time to `DATE_END`, mapped by `datetime`; `None` when that range
+reaches `DATE_END` -/
+theorem nextChangeTzG_exact {env : Env} {z : Zone} {t : Int} {l fl : List Interval} (hs : sorted z = true)
     (hend : lastLocal z + nsPerMin ≤ instEnd) (hlo : instMin ≤ naive z t) (hhi : naive z t ≤ instMax)
-    (h : nextChangeG env (naive z t) = .ok none) : nextChangeTzG env z t = .ok none := by
+    (hl : iterRangeG env (naive z t) instEnd = .ok l) (hfl : filterRanges z l = .ok fl) :
+    nextChangeTzG env z t =
+      match (mergeRanges fl).head? with
+      | none => .ok none
+      | some c =>
+        if c.stop ≥ instEnd then .ok none
+        else match datetime z c.stop with
+          | .error p => .error p
+          | .ok u => .ok (some u) := by
   obtain ⟨E, hE, hnE, hu⟩ := nextChangeTzG_unfold (env := env) hs hend hlo hhi
-  rw [hu]
+  rw [hu, firstMergedG_eq_head hl hfl]
   have h1 := instEnd_le_instMax
   have h2 := instMin_le_instEnd
-  unfold nextChangeG at h
-  cases hf : firstIntervalG env (naive z t) instEnd with
-  | error q => rw [hf] at h; cases h
-  | ok r =>
-    rw [hf] at h
-    cases r with
-    | none => rfl
-    | some iv =>
-      simp only at h ⊢
-      obtain ⟨_, b1, b2, b3⟩ := firstIntervalG_bounds hf
-      have hstop : iv.stop = instEnd := by
-        split at h
-        · omega
-        · cases h
-      have hfl : instMin ≤ min instEnd (naive z t) := by omega
-      obtain ⟨s, u, _, hu2, hm⟩ := mapInterval_ok (z := z) (by omega) (iv := iv) (by omega) (by omega) (by omega) (by omega)
-      rw [hm]
-      simp only
-      rw [hstop, hE] at hu2
-      cases hu2
-      rw [naiveChecked_ok (by omega) (by omega), hnE]
-      simp
-
-theorem nextChangeTzG_some {env : Env} {z : Zone} {t c : Int} (hs : sorted z = true)
-    (hend : lastLocal z + nsPerMin ≤ instEnd) (hlo : instMin ≤ naive z t) (hhi : naive z t ≤ instMax)
-    (h : nextChangeG env (naive z t) = .ok (some c)) (hc : instMin ≤ c) :
-    ∃ u, datetime z c = .ok u ∧ nextChangeTzG env z t = .ok (some u) := by
-  obtain ⟨E, hE, hnE, hu⟩ := nextChangeTzG_unfold (env := env) hs hend hlo hhi
-  rw [hu]
-  have h1 := instEnd_le_instMax
   have hp : (0:Int) < nsPerMin := by simp [nsPerMin]
-  unfold nextChangeG at h
-  cases hf : firstIntervalG env (naive z t) instEnd with
-  | error q => rw [hf] at h; cases h
-  | ok r =>
-    rw [hf] at h
-    cases r with
-    | none => cases h
-    | some iv =>
-      simp only at h ⊢
-      obtain ⟨_, b1, b2, b3⟩ := firstIntervalG_bounds hf
-      have hstop : iv.stop = c ∧ c < instEnd := by
-        split at h
-        · cases h
-        · cases h; omega
-      have h2 := instMin_le_instEnd
-      have hfl : instMin ≤ min instEnd (naive z t) := by omega
-      obtain ⟨s, u, _, hu2, hm⟩ := mapInterval_ok (z := z) (by omega) (iv := iv) (by omega) (by omega) (by omega) (by omega)
-      rw [hstop.1] at hu2
-      refine ⟨u, hu2, ?_⟩
-      rw [hm]
-      simp only
-      have hb := datetime_naive_bound hs (by omega) hc (by omega) hu2
-      rw [naiveChecked_ok (by omega) (by omega)]
-      simp only
-      rw [if_neg (by omega)]
+  cases hh : (mergeRanges fl).head? with
+  | none => rfl
+  | some c =>
+    simp only
+    have hc : c ∈ mergeRanges fl := List.mem_of_head? hh
+    obtain ⟨a, ha, b, hb, q1, q2, _, _, _, _⟩ := mergeRanges_mem c hc
+    obtain ⟨hsub, hkeep⟩ := filterRanges_spec hfl
+    have wa := iterRangeG_window hl a (hsub.subset ha)
+    have wb := iterRangeG_window hl b (hsub.subset hb)
+    -- the kept range `b` is not inverted: its start is mapped to a time before its end
+    obtain ⟨ub, hub, hub2⟩ := keepRange_true (hkeep b hb)
+    have hbb := datetime_naive_bound hs (by omega) (by omega) (by omega) hub
+    have hcs : instMin ≤ c.stop := by omega
+    obtain ⟨s, u, _, hu2, hm⟩ := mapInterval_ok (z := z) (by omega) (iv := c) (by omega) hcs (by omega) (by omega)
+    rw [hm]
+    simp only
+    rw [hu2]
+    have hb2 := datetime_naive_bound hs (by omega) hcs (by omega) hu2
+    rw [naiveChecked_ok (by omega) (by omega)]
+    simp only
+    by_cases hge : c.stop ≥ instEnd
+    · rw [if_pos hge, if_pos (by omega)]
+    · rw [if_neg hge, if_neg (by omega)]
 
 /-- a gap found after `(t, o)` lies at/after the end of the span that starts at `t` -/
 theorem gap_ge_end {p t o : Int} {l : List (Int × Int)} (hs : sortedFrom t l = true)
@@ -1549,9 +2119,6 @@ theorem datetime_eq_of_localSpanInGap {z : Zone} (hs : sorted z = true) (hp : sp
   · cases hg
 
 /-! ### ordering of mapped interval lists -/
-
-def Ordered (l : List Interval) : Prop :=
-  (∀ iv ∈ l, iv.start ≤ iv.stop) ∧ l.Pairwise (fun a b => a.stop ≤ b.start)
 
 theorem mapIntervals_mem {z : Zone} : ∀ {l out : List Interval}, mapIntervals z l = .ok out →
     ∀ y ∈ out, ∃ a ∈ l, mapInterval z a = .ok y := by
@@ -1692,5 +2259,97 @@ theorem datetime_steps_le {z : Zone} (hs : sorted z = true) (hp : spansOrdered z
     have hv := g6 _ hr0 hr1
     rw [(earliest?_eq_none_iff z _).mpr hcon] at hv
     cases hv
+
+/-! ### what the filter of `iter_range` keeps, and why no localized interval is empty -/
+
+/-- an instant showing a time before `n` lies before the instant `n` is mapped to -/
+theorem datetime_lt_of_naive_lt {z : Zone} (hs : sorted z = true) (hp : spansOrdered z = true)
+    (hmax : lastLocal z + nsPerMin ≤ instMax) {u n v : Int} (hmin : instMin ≤ n)
+    (hlt : naive z u < n) (hv : datetime z n = .ok v) : u < v := by
+  rcases datetime_cases hs hp hmax hmin with ⟨w, hl, hd⟩ | ⟨hl, T, a, b, g1, g2, g3, g4, g5, g6⟩
+  · rw [hd] at hv; cases hv
+    cases hm : latest? z (naive z u) with
+    | none => exact absurd rfl ((latest_none_iff hs _).mp hm u)
+    | some w' =>
+      have h1 := (latest_spec hs hm).2 u rfl
+      have h2 := latest_strictMono hs hp hlt hm hl
+      omega
+  · rw [g6] at hv; cases hv
+    have h1 := valid_le_gap hs hp g1 g3 (Int.le_of_lt hlt) (v := u) rfl
+    have h2 := emod_sec_nonneg (n - b)
+    omega
+
+/-- the class predicate `localSpanInGap` (the former D16 class) says exactly: the span is not empty
+and the clock skips all of it -/
+theorem localSpanInGap_iff {z : Zone} (hs : sorted z = true) (hp : spansOrdered z = true) (a b : Int) :
+    localSpanInGap z a b = true ↔ a < b ∧ ∀ m, a ≤ m → m < b → latest? z m = none := by
+  unfold localSpanInGap
+  constructor
+  · intro h
+    split at h
+    · rename_i T a' g hgap
+      simp only [decide_eq_true_eq] at h
+      have hnone := (gapOf_isSome_iff hs hp a).mp (by rw [hgap]; rfl)
+      obtain ⟨T1, a1, b1, k1, _, _, _, k5, _, _⟩ := gap_of_none hs hp hnone
+      rw [hgap] at k1; cases k1
+      exact ⟨h.1, fun m h1 h2 => k5 m h1 (by omega)⟩
+    · cases h
+  · intro ⟨hab, hall⟩
+    have hnone := hall a (Int.le_refl _) hab
+    obtain ⟨T, a', g, k1, k2, k3, _, k5, k6, _⟩ := gap_of_none hs hp hnone
+    rw [k1]
+    simp only [decide_eq_true_eq]
+    refine ⟨hab, ?_⟩
+    apply Int.not_lt.mp
+    intro hc
+    have hv := k6 0 (by omega) (by simp [nsPerMin])
+    rw [(earliest?_eq_none_iff z _).mpr (hall (g + 0) (by omega) (by omega))] at hv
+    cases hv
+
+/-- **the filter drops exactly the spans the clock skips entirely** (start a whole second or an
+existing time — every bound the evaluator produces — in a whole-second table) -/
+theorem keepRange_eq {z : Zone} (hs : sorted z = true) (hp : spansOrdered z = true)
+    (hal : secondsAligned z = true) (hmax : lastLocal z + nsPerMin ≤ instMax) {iv : Interval}
+    (hmin : instMin ≤ iv.start) (hle : iv.start ≤ instMax) (hne : iv.start < iv.stop)
+    (hws : iv.start % nsPerSec = 0 ∨ latest? z iv.start ≠ none) :
+    keepRange z iv = .ok (!localSpanInGap z iv.start iv.stop) := by
+  have hp0 : (0:Int) < nsPerMin := by simp [nsPerMin]
+  rcases datetime_cases hs hp hmax hmin with ⟨u, hl, hd⟩ | ⟨hl, T, a, b, g1, g2, g3, g4, g5, g6⟩
+  · have hn := (latest_spec hs hl).1
+    rw [keepRange_ok hd (by omega) (by omega), hn]
+    have hg : gapOf z iv.start = none := by
+      cases hg : gapOf z iv.start with
+      | none => rfl
+      | some g =>
+        have := (gapOf_isSome_iff hs hp iv.start).mp (by rw [hg]; rfl)
+        rw [this] at hl; cases hl
+    have : localSpanInGap z iv.start iv.stop = false := by
+      unfold localSpanInGap
+      rw [hg]
+    rw [this]
+    simp [hne]
+  · have haa : iv.start % nsPerSec = 0 := by
+      rcases hws with h | h
+      · exact h
+      · exact absurd hl h
+    have hb' : b % nsPerSec = 0 := by
+      apply gap_end_seconds (gapOf_eq z iv.start ▸ g1)
+      unfold secondsAligned at hal
+      simp only [List.all_eq_true, decide_eq_true_eq] at hal
+      exact hal
+    have hr : (iv.start - b) % nsPerSec = 0 := by simp only [nsPerSec] at *; omega
+    rw [hr, Int.add_zero] at g6
+    have hT := (earliest_spec hs (g5 0 (by omega) hp0)).1
+    simp only [Int.add_zero] at hT
+    have hb := datetime_naive_bound hs hmax hmin hle g6
+    rw [keepRange_ok g6 (by omega) (by omega), hT]
+    unfold localSpanInGap
+    rw [g1]
+    simp only
+    by_cases hbs : b < iv.stop
+    · have : ¬ (iv.start < iv.stop ∧ iv.stop ≤ b) := by omega
+      simp [hbs, this]
+    · have : iv.start < iv.stop ∧ iv.stop ≤ b := by omega
+      simp [hbs, this]
 
 end OH.Proofs.Tz
